@@ -499,6 +499,12 @@ func checkLoopBounds(p *Program, r *Result, ba *boundAnalysis, fn *ssa.Function,
 		}
 		construct := "repetition bound in the " + kind + " parser"
 		if declared {
+			if why := loopBoundExact(b, iff, cond, raw); why != "" {
+				r.violated("C11.b", funcName(fn), construct, p.pos(iff.Pos()), why)
+				continue
+			}
+		}
+		if declared {
 			r.held("C11.b", funcName(fn), construct, p.pos(iff.Pos()), "loop is bounded by the byte length declared in the record")
 		} else {
 			r.violated("C11.b", funcName(fn), construct, p.pos(iff.Pos()),
@@ -608,4 +614,97 @@ func packageMapLiteral(g *goLayouts, id *ast.Ident) *ast.CompositeLit {
 		return nil
 	}
 	return lit
+}
+
+// loopBoundExact: the repetition continues exactly while cursor < start + declared, where cursor is the loop-carried
+// position, start its value on entry, and declared the byte length read from the record. `<=` decodes one entry too many
+// (an exact record then fails with a short-buffer error); `start - declared` or a missing start decodes too few or too many.
+// Returns "" when the header has that shape, or when its shape is not one this rule reads (no loop-carried operand).
+func loopBoundExact(hdr *ssa.BasicBlock, iff *ssa.If, cond *ssa.BinOp, raw map[ssa.Value]*rawInfo) string {
+	op := cond.Op
+	// the in-loop successor is the one dominated by the header that reaches back to it; Succs[0] for `for cond {}`
+	inLoopOnTrue := true
+	if len(hdr.Succs) == 2 {
+		back := func(s *ssa.BasicBlock) bool {
+			for blk := range reachableBlocks(s) {
+				for _, ss := range blk.Succs {
+					if ss == hdr && hdr.Dominates(blk) {
+						return true
+					}
+				}
+			}
+			return false
+		}
+		if !back(hdr.Succs[0]) && back(hdr.Succs[1]) {
+			inLoopOnTrue = false
+		}
+	}
+	if !inLoopOnTrue {
+		op = map[token.Token]token.Token{token.LSS: token.GEQ, token.LEQ: token.GTR, token.GTR: token.LEQ, token.GEQ: token.LSS,
+			token.EQL: token.NEQ, token.NEQ: token.EQL}[op]
+	}
+	e := newSumForm()
+	strict := false
+	switch op {
+	case token.LSS, token.LEQ:
+		linearize(cond.X, 1, e, 0)
+		linearize(cond.Y, -1, e, 0)
+		strict = op == token.LSS
+	case token.GTR, token.GEQ:
+		linearize(cond.Y, 1, e, 0)
+		linearize(cond.X, -1, e, 0)
+		strict = op == token.GTR
+	default:
+		return ""
+	}
+	e.clean()
+	// the loop-carried cursor
+	var phi *ssa.Phi
+	for k, c := range e.coef {
+		if ph, ok := e.vals[k].(*ssa.Phi); ok && ph.Block() == hdr {
+			if c != 1 || phi != nil {
+				return "the loop-carried position does not appear once on the smaller side of the repetition bound"
+			}
+			phi = ph
+		}
+	}
+	if phi == nil {
+		return ""
+	}
+	var init ssa.Value
+	for i, pr := range hdr.Preds {
+		if !hdr.Dominates(pr) {
+			if init != nil && init != phi.Edges[i] {
+				return ""
+			}
+			init = phi.Edges[i]
+		}
+	}
+	if init == nil {
+		return ""
+	}
+	// e - phi + init must be  -declared + k
+	linearize(phi, -1, e, 0)
+	linearize(init, 1, e, 0)
+	e.clean()
+	nDecl := 0
+	for k, c := range e.coef {
+		v := e.vals[k]
+		ri := raw[v]
+		if ri != nil && ri.intrinsic && c == -1 {
+			nDecl++
+			continue
+		}
+		return "the repetition bound is not start + declared length: the term " + valueLabel(v) + " remains after removing the position, its starting value and the declared length"
+	}
+	if nDecl != 1 {
+		return "the repetition bound does not contain the declared length exactly once with a positive sign"
+	}
+	if (strict && e.k == 0) || (!strict && e.k == 1) {
+		return ""
+	}
+	if !strict && e.k == 0 {
+		return "the repetition continues while position <= start + declared length: after the last declared entry one more is decoded, so an exact record fails and appended bytes are read as an entry"
+	}
+	return "the repetition bound is off by a constant from start + declared length"
 }
